@@ -73,7 +73,7 @@ def run(ctx):
                 okb = "pool.pop()" in body_s and "-= segment.0.raw.len()" in body_s.replace("total_size ", "") or \
                     ("pool.pop()" in body_s and ".raw.len()" in body_s and "-=" in body_s)
                 exits = INV._loop_exits(ix, lp)
-                ctx.check(okb and any("None" in e for e in exits), R, key + "::reduction-subtracts-dropped-length", H.loc(b, lp),
+                ctx.check(okb and any("None" in e or "none(" in e for e in exits), R, key + "::reduction-subtracts-dropped-length", H.loc(b, lp),
                           "each dropped segment's length is subtracted from the total; an empty pool ends the loop", observed=exits)
                 # nothing is added to the pool between the reduction and the write
                 pushes = [x for x in hq.find(b["body"], lambda x: x.get("k") == "MethodCall" and x["name"] == "push" and H.show(hq.peel(x["recv"])) == "pool")]
@@ -210,7 +210,7 @@ def run(ctx):
         reviewed = {
             "core::cmp::Ord::min(($1 / (($1 / %s) * 2)), 256)" % SEGC:
                 "source/(2*segments) >= segment/2 >= 8 because segments = source/segment and 16 <= segment <= source",
-            "ruzstd::dictionary::cover::compute_epoch_info(ruzstd::dictionary::DictParams{segment_size: (core::cmp::Ord::min($1, 2048) as u32)}, $3, ($1 / ruzstd::dictionary::cover::K)).1":
+            "ruzstd::dictionary::cover::compute_epoch_info(ruzstd::dictionary::DictParams{segment_size: (core::cmp::Ord::min($1, 2048) as u32)}, $3, ($1 / 16)).1":
                 "callee: returns epoch_size >= 10000 or min(10000, num_kmers) with num_kmers >= 1 (compute_epoch_info::returned-epoch-size-non-zero)",
         }
         res_ = nz_report(b, {"$1"}, reviewed, "create")
@@ -225,7 +225,7 @@ def run(ctx):
         res2 = nz_report(eb, {"$2"} if False else set(), {}, "epoch", params_nz=("$0.segment_size",) if sites == [SRC] else ())
         # num_kmers ($2) = source_size / K >= 1 under source_size >= 16: passed by the single caller
         ce = dom.one_call(b, "compute_epoch_info")
-        okk = pv(ce["args"][2]) == "($1 / ruzstd::dictionary::cover::K)" and ctx.const(DM + "::cover::K") == 16
+        okk = pv(ce["args"][2]) == "($1 / 16)"
         ctx.check(okk, RK, "compute_epoch_info::num_kmers-at-least-1", H.loc(b, ce), "num_kmers = source_size / 16 with source_size >= 16")
         res2 = nz_report(eb, {"$2"} if okk else set(), {}, "epoch", params_nz=("$0.segment_size",) if sites == [SRC] else ())
         bad2 = [r for r in res2 if r[1] is None]
@@ -276,10 +276,10 @@ def run(ctx):
         # the range's upper bound is the number of chunks of that (non-empty) lake
         pvr = hq.Canon(rb, inline=True, force=True, max_depth=4)
         rs = pvr(rng[0]["args"][0])
-        ctx.check("chunks_mut(self.lake" in rs and rs.startswith("0.."), RK, "Reservoir::fill::rng-range-is-chunk-count", H.loc(rb, rng[0]),
+        ctx.check("chunks_mut(self.lake" in rs and rs.startswith(("0..", "..")), RK, "Reservoir::fill::rng-range-is-chunk-count", H.loc(rb, rng[0]),
                   "the random index ranges over the lake's chunks", observed=rs[:120])
         nb = ctx.hir(DM + "::reservoir::Reservoir::new")
         g = [x for x in INV.panics(crate, [DM + "::reservoir::Reservoir::new"])]
-        ctx.check(len(g) == 1 and "size >= 16" in g[0]["text"], RK, "Reservoir::new::assert", nb["file"], "the only assert is size >= 16 (established by the caller)")
+        ctx.check(len(g) == 1 and g[0]["text"].startswith(("if !(size >= 16)", "if !(16 <= size)", "if (size < 16)")), RK, "Reservoir::new::assert", nb["file"], "the only assert is size >= 16 (established by the caller)")
     ctx.guard(RK, "risky", risky)
     ctx.floor(RK, len([o for o in ctx.obs if o.rule == RK and o.cfg == ctx.cfg]), 11, "risky-operation obligations")
